@@ -471,3 +471,17 @@ def _winseq(v, params):
         if (0x2f in cps) != (0x5c in cps):
             return True
     return False
+
+
+@classifier('uncshort')
+def _uncshort(v, params):
+    """UNCSHORT: `//?/UNC` or `//./UNC` (also behind `GLOBAL/`) followed by fewer than the two components (server, share)
+    a UNC drive needs: escape() and is_magic() take it for a drive and leave its metacharacters alone, the pattern
+    parser does not, so `?` is a wildcard and the leading separators merge."""
+    if v['kind'] not in ('drive-escape-accepts-other', 'drive-escape-rejects-self', 'escape', 'nonmagic'):
+        return False
+    inp = v['input']
+    if inp.get('mode') != 'glob' or inp.get('plat') != 'W':
+        return False
+    import re as _re
+    return _re.match(r'(?i)^[\\/]{2}[?.][\\/](?:global[\\/])*unc(?:[\\/][^\\/]*)?[\\/]?$', inp['s']) is not None
